@@ -69,11 +69,11 @@ func Defs(cfg Config) []*schema.StoreDef {
 		Type: Emps, BasePath: []string{"stores"},
 		Fields: []schema.Field{
 			{Name: "name", Kind: schema.KStr},
-			{Name: "nick", Kind: schema.KStr},
+			{Name: "nick", Kind: schema.KStr, Key: "nk"}, // stored under another key than the symbol is named
 			{Name: "title", Kind: schema.KStrReq},
 			{Name: "roles", Kind: schema.KList},
 			{Name: "dept", Kind: schema.KStr, FK: Depts},
-			{Name: "boss", Kind: schema.KStr, FK: Emps},
+			{Name: "boss", Kind: schema.KStr, FK: Emps, Key: "bs"},
 			{Name: "grade", Kind: schema.KI64},
 			{Name: "watching", Kind: schema.KList, FK: Depts, Derived: true},
 			{Name: "credits", Kind: schema.KList, FK: Depts, Derived: true},
